@@ -21,6 +21,9 @@ type Relay struct {
 	total int
 	conns []net.Conn
 	done  chan struct{}
+
+	npairs       int // connections accepted so far
+	frozenBefore int // connections with a smaller index are "dark": kept open, nothing forwarded any more
 }
 
 const relayCap = 64 << 20
@@ -74,6 +77,8 @@ func (r *Relay) acceptLoop() {
 		}
 		r.mu.Lock()
 		r.conns = append(r.conns, c, s)
+		pair := r.npairs
+		r.npairs++
 		r.mu.Unlock()
 		up, down := r.newStream(), r.newStream()
 		pipe := func(dst, src net.Conn, idx int) {
@@ -81,6 +86,12 @@ func (r *Relay) acceptLoop() {
 			for {
 				n, err := src.Read(buf)
 				if n > 0 {
+					r.mu.Lock()
+					dark := pair < r.frozenBefore
+					r.mu.Unlock()
+					if dark {
+						continue // the path went dark for this connection: bytes vanish, both sockets stay open
+					}
 					r.record(idx, buf[:n])
 					if _, e := dst.Write(buf[:n]); e != nil {
 						break
@@ -89,6 +100,15 @@ func (r *Relay) acceptLoop() {
 				if err != nil {
 					break
 				}
+			}
+			r.mu.Lock()
+			dark := pair < r.frozenBefore
+			r.mu.Unlock()
+			if dark {
+				// a dark path does not carry the close either: the other side keeps a half-open connection
+				// (it is closed with the relay)
+				src.Close()
+				return
 			}
 			dst.Close()
 			src.Close()
@@ -181,6 +201,15 @@ func (r *Relay) Cut() {
 	for _, c := range cs {
 		c.Close()
 	}
+}
+
+// GoDark makes the path dark for every connection established so far: the sockets stay open but nothing is
+// forwarded in either direction any more; connections made afterwards work normally (a stalled path / half-open
+// connections after a NAT or firewall state loss).
+func (r *Relay) GoDark() {
+	r.mu.Lock()
+	r.frozenBefore = r.npairs
+	r.mu.Unlock()
 }
 
 // CutAfterFirst closes every relayed TCP connection except the first one accepted (with stream
